@@ -21,6 +21,7 @@ import (
 	"reflect"
 	"strconv"
 	"strings"
+	"syscall"
 	"time"
 	"unicode/utf8"
 
@@ -1460,6 +1461,8 @@ func replayC15(r *Run, file string) {
 	var c c15Case
 	loadReplay(file, &c)
 	snap := slog.VerifSnapshot()
+	saved, err := syscall.Dup(1) // the verdict of the replay goes to the real stdout
+	must(err)
 	captureStd(r.Out)
 	r.Coq(c15Header, "case", "ok")
 	switch c.Kind {
@@ -1482,6 +1485,7 @@ func replayC15(r *Run, file string) {
 		fmt.Println("unknown case kind", c.Kind)
 	}
 	resetProcess(snap)
+	must(syscall.Dup3(saved, 1, 0))
 	finishReplay(r)
 }
 
